@@ -45,7 +45,51 @@ THEOREMS = [
     "KrroodVerif.Json.C19_cex_nonclass",
     "KrroodVerif.Json.C19_cex_import_error",
     "KrroodVerif.Json.C19_cex_abstract",
+    "KrroodVerif.Json.resolve_eq_interp",
+    "KrroodVerif.Json.fromJson_eq_interp",
+    "KrroodVerif.Json.asFound_eq_interp",
+    "KrroodVerif.Json.C19_total_stages",
 ]
+TRANSLATED = ["KrroodVerif.Json.Translated.C19_stages_translated_eq_model",
+              "KrroodVerif.Json.Translated.C19_translated_meets_property"]
+
+
+def extra_obligations():
+    """Second tie: regenerate the stage table of `SubclassJSONSerializer.from_json` from /repo's CURRENT source (Python
+    ast) and have the kernel re-check that it equals the model's table (`Json.stageTable`, for which `resolve_eq_interp`
+    proves `interp stageTable = resolve Quirks.current`)."""
+    import os
+    import re
+    import subprocess
+    import core
+    from translate.c19_translate import generate as gen, TranslationError
+    try:
+        text = gen(core.REPO)
+    except (TranslationError, SyntaxError, OSError, RecursionError) as e:
+        return [{"name": n, "ok": False, "detail": f"translator rejected the source: {e}"} for n in TRANSLATED]
+    tmp = core.LEAN_DIR / ".lake" / "audit"
+    tmp.mkdir(parents=True, exist_ok=True)
+    f = tmp / f"C19Translated_{os.getpid()}.lean"
+    f.write_text(text + "".join(f"#print axioms {n}\n" for n in TRANSLATED))
+    try:
+        p = subprocess.run(["lake", "env", "lean", str(f)], cwd=str(core.LEAN_DIR), capture_output=True, text=True, timeout=600)
+    finally:
+        try:
+            f.unlink()
+        except OSError:
+            pass
+    out = " ".join(((p.stdout or "") + (p.stderr or "")).split())
+    res = []
+    for n in TRANSLATED:
+        m = re.search(r"'" + re.escape(n) + r"' depends on axioms: \[([^\]]*)\]", out)
+        none = re.search(r"'" + re.escape(n) + r"' does not depend on any axioms", out)
+        ax = [a.strip() for a in m.group(1).split(",")] if m else ([] if none else None)
+        ok = p.returncode == 0 and ax is not None and set(ax) <= core.ALLOWED_AXIOMS
+        res.append({"name": n, "ok": ok, "axioms": ax,
+                    "detail": "regenerated table:\n" + text[text.find("def stageTable"):text.find("/-- the decision")]
+                              + (p.stdout or "")[-1500:] + (p.stderr or "")[-800:]})
+    return res
+
 MODEL_FUNCTION = "Json.resolve / Json.fromJson / Json.spec / Json.trigger (Model/Json.lean)"
 TRUSTED = [
     "Lean 4.33 kernel; axioms of each theorem listed under coverage.theorems",
@@ -200,7 +244,7 @@ TABLE: List[Tuple[str, List[str]]] = [
     (Z.MOD_B.__name__, ["Node", "Shape", "Dog", "Money", "NodeA", "nope"]),
     (M18, [c.__name__ for c in Z.SER_CLASSES if c.__module__ == M18] + ["Money", "Money2", "NotSerializable", "Mixin", "PayloadError", "NODE_INSTANCE",
                                                  "TrackingNumber", "ExpressNumber", "Coin", "RareCoin", "Token", "Ratio",
-                                                 "AbstractNode", "AbstractLeaf", "ConcreteOfAbstract",
+                                                 "AbstractNode", "AbstractLeaf", "ConcreteOfAbstract", "RegisteredNode",
                                                  "T_VAR", "a_function", "Alias", "Z", "json", "EXT", "KEY", "Fraction", "Case",
                                                  "node", "NODE"]),
     ("props", ["c18", "c19", "nope"]),
@@ -264,7 +308,7 @@ def gen_tag(rng):
 
 
 NEAR_MISS_TAGS = [c.__module__ + "." + c.__name__ for c in Z.UNREGISTERED_SUBCLASSES + Z.ABSTRACT_SERIALIZERS] + \
-    ["krrood.adapters.json_serializer.SubclassJSONSerializer", M18 + ".ConcreteOfAbstract"]
+    ["krrood.adapters.json_serializer.SubclassJSONSerializer", M18 + ".ConcreteOfAbstract", M18 + ".RegisteredNode"]
 DOC_STRS = ["", "a", "Rex", "os.path", "12.50", "x y"]
 DOC_CLASSES = Z.GENERIC
 MONEY_TAGS = [c.__module__ + "." + c.__name__ for c in Z.EXT_MONEY]
